@@ -154,6 +154,14 @@ CONN0 = dict(up=False, bound=False, app=ABSENT, side=ABSENT, didAllocate=False,
              mboxId=ABSENT, listening=False, didClose=False)
 
 
+def welcome_token(w):
+    """an ASCII token for the `welcome` payload (the notices the server is configured to send)"""
+    if not w:
+        return "w0"
+    import hashlib
+    return "w:" + hashlib.sha1(json.dumps(w, sort_keys=True).encode("utf-8")).hexdigest()[:10]
+
+
 class Config(object):
     def __init__(self, allow_list=True, usage=False, blur=0, unit=60, welcome=None,
                  snapshots=False, extra_args=()):
@@ -166,9 +174,7 @@ class Config(object):
         self.extra_args = tuple(extra_args)
 
     def welcome_token(self):
-        if not self.welcome:
-            return "w0"
-        return "w:" + ",".join("%s=%s" % kv for kv in sorted(self.welcome.items()))
+        return welcome_token(self.welcome)
 
 
 class Driver(object):
@@ -418,8 +424,7 @@ class Driver(object):
         ok = isinstance(ty, str) and isinstance(d.get("server_tx"), float)
         if ty == "welcome":
             w = d.get("welcome")
-            f["w"] = ("w0" if w == {} else "w:" + ",".join("%s=%s" % kv for kv in sorted(w.items()))) \
-                if isinstance(w, dict) else "?"
+            f["w"] = welcome_token(w) if isinstance(w, dict) else "?"
         elif ty == "ack":
             f["id"] = T.tok("id", d.get("id"))
         elif ty == "pong":
@@ -614,7 +619,13 @@ class Driver(object):
             if e.get("fault"):
                 self._fault_armed = True
             try:
-                self.tclock.advance(self.clock.now - self.tclock.seconds())
+                # the timer's own idea of the instant may differ from ours in the last
+                # float digit (it adds the period to a float start time)
+                target = self.clock.now
+                due = [c.getTime() for c in self.tclock.getDelayedCalls()]
+                if due and abs(min(due) - target) < 1e-4:
+                    target = max(target, min(due))
+                self.tclock.advance(target - self.tclock.seconds())
             except Exception as ex:   # pragma: no cover
                 err = type(ex).__name__
             self._fault_armed = False
